@@ -181,7 +181,13 @@ func (e *env) waitSettled(name string, c contract, bound time.Duration) bool {
 		return true
 	}
 	if exhausted.Load() >= 4 {
-		bound /= 8
+		// the cut bound is still far above what correct code needs (a first resolution takes milliseconds, a polled
+		// change one poll interval of 1 s ± 10 %), so it never turns correct behaviour into a difference
+		if bound > settleBound {
+			bound = 1600 * time.Millisecond
+		} else {
+			bound /= 8
+		}
 	}
 	defer func(t0 time.Time) {
 		if time.Since(t0) >= bound {
